@@ -479,7 +479,31 @@ func isValidVoteproofsFromLocalFS(networkID base.NetworkID, vps [2]base.Voteproo
 		}
 	}
 
-	return base.IsValidVoteproofsWithManifest(vps, m)
+	return isValidVoteproofsWithManifest(vps, m)
+}
+
+// isValidVoteproofsWithManifest checks the voteproofs of block with it's
+// manifest; the majority of accept voteproof should be for the block of
+// manifest.
+func isValidVoteproofsWithManifest(vps [2]base.Voteproof, m base.Manifest) error {
+	if err := base.IsValidVoteproofsWithManifest(vps, m); err != nil {
+		return err
+	}
+
+	e := util.ErrInvalid.Errorf("voteproofs with manifest")
+
+	if vps[1] == nil {
+		return e.Errorf("empty accept voteproof")
+	}
+
+	switch majority, ok := vps[1].Majority().(base.ACCEPTBallotFact); {
+	case !ok:
+		return e.Errorf("empty majority of accept voteproof")
+	case majority.NewBlock() == nil, !majority.NewBlock().Equal(m.Hash()):
+		return e.Errorf("new block of accept voteproof does not match with manifest")
+	}
+
+	return nil
 }
 
 func IsValidBlocksFromStorage(
